@@ -103,5 +103,9 @@ for p in props:
         })
     else:
         m["not_applicable"].append({"property_id": i, "reason": NA.get(i, "check under construction in this session (engine built; harness for this property not yet registered)")})
+m["notes"] = ("exit 0 held / 1 VIOLATION / 2 engine or build error (never a verdict). Known findings (open and fixed): known_findings.json; "
+              "counterexamples as found: findings/; seeded changes and which check reports them: seeded/ (tools/seeded_regress.sh); "
+              "behaviour-preserving refactorings as negative controls: benign/ (tools/benign_regress.sh); what each tier covered on its last run: "
+              "docs/COVERAGE.md. See DESIGN.md (section 9: as built).")
 json.dump(m, open(os.path.join(V, 'MANIFEST.json'), 'w'), indent=1)
 print("checks:", [c["property_id"] for c in m["checks"]])
